@@ -11,6 +11,7 @@ import intervals
 PANIC_CALLS = re.compile(r"(^|::)(panic|panic_fmt|panic_display|panic_str|panic_explicit|unreachable_display|assert_failed|expect_failed|unwrap_failed|panic_const::.*|panic_nounwind|begin_panic)$")
 EXPECTS = re.compile(r"^(std|core)::(option::Option|result::Result)::(expect|unwrap|expect_err|unwrap_err)$")
 SLICE_INDEX = re.compile(r"<impl (std::ops::)?Index(Mut)?<I> for (\[T\]|\[T; N\]|std::vec::Vec<T, A>|str|std::string::String)>::index(_mut)?$|^std::slice::<impl \[T\]>::(copy_from_slice|split_at|split_at_mut)$|^std::vec::Vec<T, A>::(remove|swap_remove|insert|drain|split_off|truncate)$")
+LOSSY = re.compile(r"::num::<impl (u8|u16|u32|u64|usize|u128)>::(checked_shl|wrapping_shl|overflowing_shl|unbounded_shl|wrapping_add|wrapping_sub|wrapping_mul|overflowing_add|overflowing_sub|overflowing_mul|unchecked_add|unchecked_sub|unchecked_mul|unchecked_shl)$")
 WIDTH = {"u8": 8, "u16": 16, "u32": 32, "u64": 64, "usize": 64, "i32": 32, "i64": 64, "isize": 64, "u128": 128}
 
 
@@ -56,6 +57,10 @@ def collect(fn, max_paths=20000):
                 if EXPECTS.match(name):
                     k = ("call:" + name.split("::")[-1], tuple(canon(o) for o in e[2]), e[4])
                     _merge(seen, k, fn, "call:" + name.split("::")[-1], e[2], p.atoms[:e[6]], e[4], ())
+                elif LOSSY.search(name):
+                    m = LOSSY.search(name)
+                    k = ("lossy:" + m.group(2), tuple(canon(o) for o in e[2]), e[4])
+                    _merge(seen, k, fn, "lossy:%s:%s" % (m.group(2), m.group(1)), e[2], p.atoms[:e[6]], e[4], ())
                 elif SLICE_INDEX.search(name):
                     short = name.split("::")[-1]
                     k = ("call:" + short, tuple(canon(o) for o in e[2]), e[4])
@@ -147,6 +152,35 @@ def discharge(o, typeb=None, width_of=None):
         if op in ("Shl", "Shr"):
             if bh is not None and bh < w:
                 return "interval: shift amount <= %s < %d" % (bh, w)
+        return None
+    if k.startswith("lossy:"):
+        _, op, ty = k.split(":")
+        w = WIDTH.get(ty, 64)
+        a, b = o.ops[0], o.ops[1]
+        al, ah = bounds_of(o.atoms, a, typeb)
+        bl, bh = bounds_of(o.atoms, b, typeb)
+        if op.endswith("shl"):
+            if ah is not None and bh is not None and bh < w and (ah << bh) < (1 << w):
+                return "interval: value << amount stays below 2^%d (no bit lost)" % w
+            # guard of the form a <= MAX >> amount
+            for at in o.atoms:
+                if at[0] == "cmp" and at[1] in ("Le", "Lt") and intervals.core(at[2]) == intervals.core(a):
+                    r = intervals.core(at[3])
+                    if isinstance(r, tuple) and r[0] == "bin" and r[1] == "Shr" and intervals.core(r[3]) == intervals.core(b) and intervals.cval(r[2]) == (1 << w) - 1:
+                        return "guard value <= MAX >> amount"
+            return None
+        if op.endswith("add"):
+            if ah is not None and bh is not None and ah + bh < (1 << w):
+                return "interval: no wrap"
+            return None
+        if op.endswith("sub"):
+            if _rel(o.atoms, a, b, ("Ge", "Gt", "Eq")) or (al is not None and bh is not None and al >= bh):
+                return "guard a>=b"
+            return None
+        if op.endswith("mul"):
+            if ah is not None and bh is not None and ah * bh < (1 << w):
+                return "interval: no wrap"
+            return None
         return None
     if k == "BoundsCheck":
         ln, ix = o.ops
